@@ -221,6 +221,17 @@ class World:
 
         def rec(kind):
             def f(*a, **k):
+                # arguments given by keyword are brought to the positional order of the abstract signature
+                sig = {"to_bytearray": ("offset", "nbytes"), "update_from_buffer": ("offset", "source"), "update_from_native": ("offset", "source", "source_offset", "nbytes"),
+                       "update_from_xbuffer": ("offset", "source", "source_offset", "nbytes"), "update_from_nplike": ("offset", "dest_dtype", "value"),
+                       "to_nplike": ("offset", "dtype", "shape"), "to_nparray": ("offset", "dtype", "shape"), "to_native": ("offset", "nbytes")}.get(kind)
+                if sig and k:
+                    a = list(a)
+                    for name in sig[len(a):]:
+                        if name not in k:
+                            break
+                        a.append(k.pop(name))
+                    a = tuple(a)
                 I.effects.append(Effect(kind, args=a, kwargs=k, buf=b))
                 if self.copy_bytes and kind == "update_from_buffer" and len(a) == 2 and isinstance(a[1], (bytes, bytearray)) and topoly(a[0]) is not None:
                     # known byte strings are kept (per path: the store lives in I.mem under a reserved key)
